@@ -503,6 +503,14 @@ def layout_definition(s):
     return [("def:c19_variable_size", z3.ForAll([k], z3.Implies(v.has(k), vsize(k) == DS2.size(v.vals[k])), patterns=[vsize(k)]))]
 
 
+def fa(vs, body, *pats):
+    """ForAll with explicit triggers when z3 accepts them (a select on a lambda term - e.g. a list after remove() - is not a valid trigger)."""
+    try:
+        return z3.ForAll(vs, body, patterns=list(pats)) if pats else z3.ForAll(vs, body)
+    except z3.Z3Exception:
+        return z3.ForAll(vs, body)
+
+
 def ps_wf(s):
     """Representation invariant of a parameter space (established by add_random_vector, kept by remove_variable / rename_variable): every
     uncertain variable is a design variable with a joint distribution of its size; no name is listed twice."""
@@ -511,8 +519,7 @@ def ps_wf(s):
     return [("uncertain-variables-are-variables-with-a-distribution",
              forall_pat([i], z3.Implies(z3.And(0 <= i, i < u.n), z3.And(v.has(u.elems[i]), d.has(u.elems[i]))), u.elems[i])),
             ("one-marginal-per-component", forall_pat([i], z3.Implies(z3.And(0 <= i, i < u.n), j_n(d.get(u.elems[i])) == DS2.size(v.get(u.elems[i]))), u.elems[i])),
-            ("no-uncertain-variable-listed-twice", z3.ForAll([i, j], z3.Implies(z3.And(0 <= i, i < j, j < u.n), u.elems[i] != u.elems[j]),
-                                                              patterns=[z3.MultiPattern(u.elems[i], u.elems[j])]))]
+            ("no-uncertain-variable-listed-twice", fa([i, j], z3.Implies(z3.And(0 <= i, i < j, j < u.n), u.elems[i] != u.elems[j]), z3.MultiPattern(u.elems[i], u.elems[j])))]
 
 
 def ps_kept(s0, s1, *except_fields):
@@ -851,27 +858,28 @@ class _Transformation(Contract):
     def ensures(self, c):
         s0, s1 = c.old.self, c.new.self
         x = c.old.x_vect if "x_vect" in self.params else c.old.vector
-        return [("transformation", transformation_post(c, c.result, x, type(self).F_JOINT, type(self).F_DS))]
+        mlb = c.old.minus_lb if "minus_lb" in self.params else True
+        return [("transformation", transformation_post(c, c.result, x, type(self).F_JOINT, type(self).F_DS, mlb))]
 
 
 @register
 class NormalizeVectBlocks(_Transformation):
-    """__normalize_vect(x) = the concatenation, in the variable order, of: CDF of THE joint distribution of v applied to the block of v, for every uncertain
-    variable v; the block of v of DesignSpace.normalize_vect(x) (the affine design-space map) for every deterministic variable v."""
+    """__normalize_vect(x, minus_lb) = the concatenation, in the variable order, of: CDF of THE joint distribution of v applied to the block of v, for every
+    uncertain variable v; the block of v of DesignSpace.normalize_vect(x, minus_lb) (the affine design-space map) for every deterministic variable v."""
 
     targets = (PS + ".__normalize_vect",)
-    params = {"x_vect": F1}
+    params = {"x_vect": F1, "minus_lb": TBool}
     loops = {0: LoopSpec(anchor="missing_names", inv=_tr_inv(jcdf_t, ds_n, "x_vect", "x_n", "x_n_geom"), modifies=("x_n",), local_types={"name": TStr})}
 
 
 @register
 class UnnormalizeVectBlocks(_Transformation):
     """__unnormalize_vect(u) = the concatenation, in the variable order, of: INVERSE CDF of THE joint distribution of v applied to the block of v, for every
-    uncertain variable v; the block of v of DesignSpace.unnormalize_vect(u, no_check) (the affine design-space map) for every deterministic variable v.
+    uncertain variable v; the block of v of DesignSpace.unnormalize_vect(u, minus_lb, no_check) (the affine design-space map) for every deterministic variable v.
     ValueError: an uncertain block with a component outside [0, 1], or the design-space check."""
 
     targets = (PS + ".__unnormalize_vect",)
-    params = {"x_vect": F1, "no_check": TBool}
+    params = {"x_vect": F1, "minus_lb": TBool, "no_check": TBool}
     F_JOINT, F_DS = jicdf_t, ds_u
     loops = {0: LoopSpec(anchor="missing_names", inv=_tr_inv(jicdf_t, ds_u, "x_vect", "x_u", "x_u_geom"), modifies=("x_u",), local_types={"name": TStr})}
     raises = {"ValueError": None}
@@ -879,10 +887,8 @@ class UnnormalizeVectBlocks(_Transformation):
 
 class _Public(_Transformation):
     """use_dist: the transformation above; otherwise the design-space map - in both cases WITH THE GIVEN minus_lb for the deterministic components
-    (docstring: "For the components of the deterministic variables, use the approach defined in DesignSpace.[un]normalize_vect with `minus_lb`")."""
-
-    def finding_regions(self, c):
-        return {"minus_lb-is-false": z3.Not(bv(c.old.minus_lb))}
+    (docstring: "For the components of the deterministic variables, use the approach defined in DesignSpace.[un]normalize_vect with `minus_lb`";
+    repaired in /repo bc82ce9: minus_lb used to be dropped, which made normalize_grad / unnormalize_grad of a parameter space wrong)."""
 
     def ensures(self, c):
         s, x, r = c.old.self, c.old.x_vect, c.result
@@ -1087,7 +1093,7 @@ for _b in (DS2.UpdateCurrentStatus, DS2.ClearDependentData, DS2.UpdateCurrentMet
 
 def _first_index(u, name, p):
     i = z3.Int("i!fi")
-    return z3.And(0 <= p, p < u.n, u.elems[p] == name, z3.ForAll([i], z3.Implies(z3.And(0 <= i, i < p), u.elems[i] != name), patterns=[u.elems[i]]))
+    return z3.And(0 <= p, p < u.n, u.elems[p] == name, fa([i], z3.Implies(z3.And(0 <= i, i < p), u.elems[i] != name), u.elems[i]))
 
 
 @register
